@@ -4,6 +4,7 @@
 // verifier and after the call returns.
 #include "../sim/world_common.hpp"
 #include "../sim/mmu.hpp"
+#include "../sim/aligned_new.hpp"
 #include "../sim/simnode.hpp"
 #include <malloc.h>
 #include <memory>
@@ -26,7 +27,8 @@ extern "C" void* __wrap_malloc(size_t n)
       g_ctx->fired("F5_host_malloc_null");
     return nullptr;
   }
-  return __real_malloc(n);
+  (void)&__real_malloc;
+  return sim_aligned_alloc(n); // see sim/aligned_new.hpp
 }
 
 enum Kind
@@ -357,8 +359,14 @@ struct ToctouWorld : World
     char* deny_buf = nullptr;
     bool copied = false;
 
-    if (!dry)
+    if (!dry) {
       c.ev("scenario %s placement=%d len=%u size=%zu", kVar[variant], sc.placement, lenA, S);
+      void* probe1 = ::operator new(6000);
+      void* probe2 = ::operator new(300);
+      c.ev("layout heap6000_above_region=%d heap300_above_region=%d", (int)((uintptr_t)probe1 > base), (int)((uintptr_t)probe2 > base));
+      ::operator delete(probe1);
+      ::operator delete(probe2);
+    }
     mmu::arm(impl->mem.base, S, dry ? nullptr : &ToctouWorld::hook, this);
     Outcome o = attempt([&] {
       switch (variant) {
